@@ -83,10 +83,16 @@ class FakeLock:
 
     def acquire(self, blocking=True, timeout=-1):
         ex = self.ex
-        if ex.dirty.get(ex.cur) and not ex.stop:
-            # this operation already touched shared state without the lock: whatever it read may be
-            # stale by the time it gets the lock, so other threads may run here
-            ex.pause(ex.cur, "lock acquire after an unlocked access")
+        if not ex.stop:
+            if ex.dirty.get(ex.cur):
+                # this operation already touched shared state without the lock: whatever it read may
+                # be stale by the time it gets the lock, so other threads may run here
+                ex.pause(ex.cur, "lock acquire after an unlocked access")
+            elif ex.sections.get(ex.cur, 0) >= 1:
+                # the operation consists of more than one critical section: other threads may run
+                # between two sections
+                ex.pause(ex.cur, "between two critical sections of one operation")
+            ex.sections[ex.cur] = ex.sections.get(ex.cur, 0) + 1
         if self.owner is not None:
             self.ex.problems.append("lock acquired while held")
             raise RuntimeError("lock acquired while held (would deadlock)")
@@ -261,6 +267,7 @@ class Exec:
         self.pipe._cv = FakeCV(self, self.lock)
         self.paused = {}        # tid -> why (thread parked at an extra switch point)
         self.dirty = {}         # tid -> the running operation has touched shared state unlocked
+        self.sections = {}      # tid -> lock acquisitions made by the running operation
         self.unlocked = []      # (attribute, action) of unlocked accesses not yet reported
         self.unmodelled = False
         watch(self.pipe, self)
@@ -377,6 +384,7 @@ class Exec:
             op = self.programs[tid][self.started[tid]]
             self.started[tid] += 1
             self.dirty[tid] = False
+            self.sections[tid] = 0
             action = op_action(op)
         self.cur = tid
         self.pending = (c, action, op, self.lock.acquires)
@@ -690,6 +698,7 @@ class Work:
         self.digests = []      # (programs, count, hash-sum, first leaves) of exhaustively enumerated sets
         self.explicit = []     # (programs, result) compared schedule by schedule
         self.executed = 0
+        self.unmodelled = []   # executions with switch points the model does not have
         self.exhaustive_sets = 0
         self.sets = 0
 
@@ -702,6 +711,7 @@ def check_programs(ctx, programs, cap, rng, work, label, nsample):
         nontrivial = any(a[1][0] in ("AWake", "ARead") for a in r["actions"]) and len(r["actions"]) > 1
         ctx.count((programs, r["schedule"]), nontrivial=nontrivial, kind=label)
     good = [r for r in leaves if r["ok"] and r["modelled"]]
+    work.unmodelled += [(programs, r) for r in leaves if r["ok"] and not r["modelled"]][:1]
     if exhaustive and len(good) == len(leaves):
         work.exhaustive_sets += 1
         total = 0
@@ -811,8 +821,17 @@ def _run(ctx, rng):
     ctx.count(("deadline", programs), kind="deadline")
     if r["ok"] and r["modelled"]:
         work.explicit.append((programs, r))
-    compare_digests(ctx, work)
-    compare_explicit(ctx, work.explicit)
+    try:
+        compare_digests(ctx, work)
+        compare_explicit(ctx, work.explicit)
+    except Exception as e:  # noqa -- e.g. the translator aborted and the model did not build; the oracle above
+        # has already run on every executed schedule, independently of the model
+        ctx.disagree("model comparison could not run: %s" % str(e)[:300])
+    if work.unmodelled:
+        programs, r = work.unmodelled[0]
+        ctx.disagree("an operation is not a single critical section (unlocked access or several lock regions): "
+                     "the model's atomic actions do not describe this code",
+                     case={"programs": programs, "schedule": [list(c) for c in r["schedule"]]}, impl=r["actions"])
     for programs, r in work.explicit[:2] + work.explicit[-1:]:
         ctx.sample({"programs": programs, "schedule": [list(c) for c in r["schedule"]], "impl_trace": r["trace"]})
 
